@@ -24,10 +24,11 @@ type acProg struct {
 	initFlags uint8 // assumed widths at the start (bits $20 / $10)
 	calls     []asmOp
 	assume    []int // index into calls before which AssumeREP(-)/AssumeSEP(+) ... encoded in asmOp kind 'R'/'P'
+	split     int   // > 0: the calls from this index on go into a Clone of the emitter, which is appended back at the end
 }
 
 func (p acProg) String() string {
-	ss := []string{fmt.Sprintf("asm-cpu init=%02x", p.initFlags)}
+	ss := []string{fmt.Sprintf("asm-cpu init=%02x split=%d", p.initFlags, p.split)}
 	for _, o := range p.calls {
 		ss = append(ss, o.String())
 	}
@@ -44,7 +45,11 @@ func runProg(p acProg, rep *report.Report) (complaint string, steps int) {
 	e.AssumeSEP(asm.Flags(p.initFlags & 0x30))
 	e.AssumeREP(asm.Flags(^p.initFlags & 0x30))
 	var starts []uint32
-	for _, o := range p.calls {
+	root := e
+	for i, o := range p.calls {
+		if p.split > 0 && i == p.split {
+			e = root.Clone(make([]byte, 4096)) // the program is continued in a clone (C16) and appended back below
+		}
 		pc := e.PC()
 		switch o.kind {
 		case 'I':
@@ -54,6 +59,10 @@ func runProg(p acProg, rep *report.Report) (complaint string, steps int) {
 			}
 			starts = append(starts, pc)
 		}
+	}
+	if e != root {
+		root.Append(e)
+		e = root
 	}
 	end := e.PC()
 	code := e.Bytes()
@@ -133,6 +142,9 @@ func genProg(r *prng.R, ms []asmMethod) acProg {
 		}
 		p.calls = append(p.calls, asmOp{kind: 'I', m: m, args: args})
 	}
+	if r.Chance(25) && len(p.calls) > 1 {
+		p.split = 1 + r.N(len(p.calls)-1)
+	}
 	return p
 }
 
@@ -163,7 +175,13 @@ func runAsmCPU() {
 			for changed := true; changed; {
 				changed = false
 				for k := 0; k < len(p.calls); k++ {
-					q := acProg{p.initFlags, append(append([]asmOp{}, p.calls[:k]...), p.calls[k+1:]...), nil}
+					q := acProg{p.initFlags, append(append([]asmOp{}, p.calls[:k]...), p.calls[k+1:]...), nil, p.split}
+					if q.split > k {
+						q.split--
+					}
+					if q.split >= len(q.calls) {
+						q.split = 0
+					}
 					if m2, _ := runProg(q, rep); m2 != "" {
 						p, msg, changed = q, m2, true
 						k--
@@ -176,7 +194,7 @@ func runAsmCPU() {
 	rep.Evaluations = total
 	rep.Distinct = int64(len(distinct))
 	rep.CountN("programs", int64(n))
-	rep.Rule = "random straight-line programs of 1..24 calls over every non-transferring instruction method (by reflection) with REP/SEP interleavings and all four initial width assumptions, " +
+	rep.Rule = "random straight-line programs of 1..24 calls (a quarter of them continued in a Clone and appended back) over every non-transferring instruction method (by reflection) with REP/SEP interleavings and all four initial width assumptions, " +
 		"assembled by the real Emitter at $C0:8000 and single-stepped on both real CPUs (whole bus mapped); compared: PC before every Step with the recorded PC(), final M/X with IsM16bit/IsX16bit. " +
 		"evaluations = CPU steps; distinct_nontrivial = distinct (initial widths, mnemonic sequence)"
 	rep.Emit()
